@@ -33,9 +33,11 @@ Theorem C02_nonvacuous :
 Proof. exact ex_decodes. Qed.
 Print Assumptions C02_nonvacuous.
 
-(* The part of the full statement that is not a theorem (kept visible, not proved): the Rust
-   decoders never panic/abort on any input.  [rust_decode_outcome] would have to be the real
-   machine behaviour; in the model every outcome is Ok or Err by construction. *)
-Definition C02_never_panics_statement : Prop :=
-  forall t b, is_decode_type t -> wf_bytes b = true ->
-    (exists v rest, dec L t b = Ok (v, rest)) \/ (exists e, dec L t b = Err e /\ e <> ModelStuck).
+(* the model decoder is total: on every byte string it returns a value or one of the Rust
+   error kinds, never the model-only ModelStuck (the two partial spots of the model - an
+   ill-shaped partially decoded object, the Vec<T> loop running out of fuel - are unreachable).
+   This is the model's analogue of "never panics"; the Rust runtime half stays partial. *)
+Theorem C02_total : forall t b, is_codec_type t -> wf_bytes b = true ->
+  (exists v rest, dec L t b = Ok (v, rest)) \/ (exists e, dec L t b = Err e /\ e <> ModelStuck).
+Proof. exact inst_dec_total. Qed.
+Print Assumptions C02_total.
